@@ -144,7 +144,7 @@ func ZZ_C13_W34() {
 			_, _, _ = w.sc.Commit()
 		}
 	}
-	req := zzverif.NondetU256Below("reqAmt", new(uint256.Int).Lsh(uint256.NewInt(1), 130))
+	req := zzverif.NondetU256("reqAmt") // the full 256-bit range
 	amt := uint256.NewInt(0)
 	if zzverif.Choose("nonzeroAmount", 2) == 1 {
 		amt = zzverif.NondetU256Below("amount", bound)
